@@ -4,6 +4,7 @@ compared with the specification after every call of a transition-covering path."
 from __future__ import annotations
 
 from . import common  # noqa: F401
+from . import aging
 from .common import MachineryError
 
 import hashlib
@@ -220,6 +221,7 @@ def replay(world, flags, path, found, facts):
             return
 
 
+@aging.paused
 def run(rep, tier, seed):
     """TLC explores XPrepStages completely, every transition is covered by replayed paths for every world x flags."""
     cfg = ["SPECIFICATION Spec", "CONSTANTS", " Datasets <- DS", " Deviations <- NoDev", " Compatible <- CompAll", "INVARIANT C14_FitStateFromLastFit",
